@@ -12,6 +12,6 @@ cd "$(dirname "$0")/.." || exit 2
 [ $# -eq 0 ] && set -- $(cat tools/ready.txt)
 export SQLASTATIC_ROOT="$WT"
 export TAG
-printf '%s\n' "$@" | xargs -P 8 -I{} sh -c './check {} --evidence /tmp/ts/ev_${TAG}_{}.json > /tmp/ts/out_${TAG}_{}.txt 2>&1; echo "{} exit=$?" ' | sort | grep -v "exit=0" 
+printf '%s\n' "$@" | xargs -P 4 -I{} sh -c './check {} --evidence /tmp/ts/ev_${TAG}_{}.json > /tmp/ts/out_${TAG}_{}.txt 2>&1; echo "{} exit=$?" ' | sort | grep -v "exit=0" 
 for p in "$@"; do f=/tmp/ts/out_${TAG}_$p.txt; grep -E "^(VIOLATION|ANALYSIS-ERROR)" -B3 "$f" | grep -v "^KNOWN-FINDING" | cut -c1-400; rm -f "$f" /tmp/ts/ev_${TAG}_$p.json; done
 echo "[try_seed done]"
